@@ -732,6 +732,15 @@ static void nerr_case(Toks& tk, Out& out, std::size_t ncells, std::size_t nspec,
   }
   double e = solver.NormalizedError(Y, YN, ER, st);
   out.q(e);
+  {
+    // an error vector holding a NaN has a NaN norm (that is what makes the integrator report NaNDetected): it must
+    // not be hidden by the floor at error_min
+    DM ERN = ER;
+    ERN[ncells - 1][nspec - 1] = std::numeric_limits<double>::quiet_NaN();
+    double en = solver.NormalizedError(Y, YN, ERN, st);
+    if (!std::isnan(en))
+      out.tok("ORACLE_ERROR_NORM_HIDES_NAN");
+  }
   // oracle: RMS over real cells and species of err / (atol_s + rtol * max(|y|, |ynew|)), floor 1e-10
   long double sum = 0;
   for (std::size_t c = 0; c < ncells; ++c)
